@@ -27,9 +27,14 @@ BigEpochs == {<<48>>, <<49>>, Dg(<<2,1,4,7,4,8,3,6,4,7>>), Dg(<<2,1,4,7,4,8,3,6,
               Dg(<<9,2,2,3,3,7,2,0,3,6,8,5,4,7,7,5,8,0,7>>), Dg(<<9,2,2,3,3,7,2,0,3,6,8,5,4,7,7,5,8,0,8>>),
               Dg(<<1,8,4,4,6,7,4,4,0,7,3,7,0,9,5,5,1,6,1,5>>)}
 BigEpochVers == {[e |-> e, u |-> u, r |-> <<>>] : e \in BigEpochs, u \in {<<49>>, <<50>>}}
+\* version TEXTS whose epochs carry leading zeros (decimal all the same: 010 is ten, 08 is eight), every ordered pair
+EpochTexts == {e \o <<COLON, 49, 46, 48, HYPHEN, 49>> : e \in {<<48, 49, 48>>, <<57>>, <<49, 48>>, <<48, 48, 49, 48>>, <<48, 56>>, <<56>>, <<48, 48>>, <<48, 49, 55>>, <<49, 53>>}}
+              \cup {<<49, 46, 48, HYPHEN, 49>>}
+TextVecs == SetToSeq({[k |-> "cmp_text", ta |-> a, tb |-> b] : a \in EpochTexts, b \in EpochTexts})
 CmpVecs == SetToSeq({[k |-> "cmp", a |-> a, b |-> b] : a \in Vers \cup Literals, b \in Vers \cup Literals})
            \o SetToSeq({[k |-> "cmp", a |-> a, b |-> b] : a \in HyVers, b \in HyVers})
            \o SetToSeq({[k |-> "cmp", a |-> a, b |-> b] : a \in BigEpochVers, b \in BigEpochVers})
+           \o TextVecs
 
 \* C03: every string over the alphabet
 ParseVecs == SetToSeq({[k |-> "parse", s |-> s] : s \in Strings})
